@@ -243,7 +243,15 @@ class RefExec:
     def field_value(self, T, obj, f, nodes, path):
         r = values.coerce_arguments(self.s, f.args, nodes[0].args, self.vars)
         if r[0] == "err":
-            self.fail(path, "args", nodes, r[1])
+            # the arguments fail on their own; hooks of other arguments / defaulted input fields may have run as well and
+            # reported their refusal too (when SDL defaults can be involved the known finding about their location applies)
+            dflt = False
+            if self.w.input_faults:
+                given = {n for n, _ in nodes[0].args}
+                dflt = any(a.name not in given and a.default is not smodel.NODEF for a in f.args) or any(
+                    x.default is not smodel.NODEF for key in self.w.input_faults
+                    for x in (self.s.types[key.split(".")[0]].fields if key.split(".")[0] in self.s.types else []) if x.name == key.split(".")[1])
+            self.fail(path, "args", nodes, r[1], sdl_default=dflt)
         args = r[1]
         for a in f.args:
             # a failing argument hook (@vtgate with an injected fault) fails the field, like any argument coercion error
